@@ -291,6 +291,7 @@ pub fn run_raw(pool: &Pool, prefix: &str, prelude: &str, cases: &[RawCase], batc
             };
             match resp {
                 Err(reason) => {
+                    eprintln!("[{prefix}]   package of {len} cases at {first}: worker failure: {}", vhcore::truncate(&reason, 200));
                     if *len == 1 {
                         worker_failures.push(format!("case `{}`: {reason}", cases[*first].desc));
                         results[*first] = Some(RawResult::BuildFailed { error: format!("worker failure: {reason}"), panic: Some(reason), panic_loc: "worker-died".into() });
@@ -302,6 +303,7 @@ pub fn run_raw(pool: &Pool, prefix: &str, prelude: &str, cases: &[RawCase], batc
                     let b = &r.builds[0];
                     build_millis += b.millis;
                     if build_failed(b) {
+                        eprintln!("[{prefix}]   package of {len} cases at {first} failed: {} {:?}", vhcore::truncate(&fail_text(b), 200), b.panic.as_ref().map(|p| vhcore::truncate(p, 160)));
                         if *len == 1 {
                             results[*first] = Some(RawResult::BuildFailed { error: fail_text(b), panic: b.panic.clone(), panic_loc: b.panic_loc.clone() });
                         } else {
